@@ -37,13 +37,22 @@ pub fn step(ctx: &Ctx, w: &World, ev: &mut Ev) {
         Some(p) if p.size != 0 => p.clone(),
         _ => return,
     };
-    let f = match owed(ctx.pre, v, &actor, d) {
+    // funding owed against the harness's own running sum of settlement premiums (falls back to the engine's
+    // cumulative fraction when a settlement could not be referenced)
+    let f = match ctx.model.cum_ref.get(v).cloned().flatten() {
+        Some(c) => funding_owed(c, pos.checkpoint, pos.size, d),
+        None => owed(ctx.pre, v, &actor, d),
+    };
+    let f = match f {
         Some(f) => f,
         None => {
             ev.count("ref_overflow_skipped");
             return;
         }
     };
+    if ctx.model.cum_ref.get(v).cloned().flatten().map(|c| c != ctx.pre.vamms[v].cum).unwrap_or(false) {
+        ev.count("engine_cumulative_fraction_differs_from_reference");
+    }
     let q = quote_moved(ctx, v);
     let moved = ctx.post.vamms[v].size - ctx.pre.vamms[v].size;
     let whole = moved == -pos.size;
